@@ -59,7 +59,7 @@ structure PTrace where
 
 structure State where
   traces : List (FrameId × PTrace)      -- self.traces, keyed by frame
-  log : List PTrace                     -- what has been handed to logger.log, oldest first
+  log : List (FrameId × PTrace)         -- what has been handed to logger.log, oldest first (tagged with the frame for the spec)
   draws : List Nat                      -- the stream `random.randrange(rate)` will produce
   deriving Repr, Inhabited
 
@@ -78,6 +78,31 @@ def setT (fid : FrameId) (t : PTrace) (m : List (FrameId × PTrace)) : List (Fra
 def addYield (t : PTrace) (ty : Ty) : PTrace :=
   { t with yld := some (match t.yld with | none => ty | some y => mkUnion [y, ty]) }
 
+/-- the sampling draw of `handle_call`: (skip this call?, remaining draws) -/
+def sampleDraw (rate : Option Nat) (draws : List Nat) : Bool × List Nat :=
+  match rate with
+  | none => (false, draws)
+  | some 0 => (false, draws)                 -- `if self.sample_rate and …`: 0 is falsy
+  | some _ => (match draws with
+               | [] => (false, [])
+               | d :: ds => (d != 0, ds))
+
+/-- the rest of `handle_call`: resolve the function, ignore a frame that is already being traced, record the arguments -/
+def beginTrace (cfg : Cfg) (s : State) (fid : FrameId) (code : CodeId) (args : List (String × Ty)) : State :=
+  match cfg.resolve code with
+  | none => s
+  | some f =>
+    if (lookupT fid s.traces).isSome then s
+    else { s with traces := setT fid { func := f, args := args, ret := none, yld := none } s.traces }
+
+/-- `handle_return` for a frame that is being traced -/
+def endEvent (s : State) (fid : FrameId) (t : PTrace) (op : Op) (coro : Bool) (ty : Ty) : State :=
+  if op == .yieldValue then
+    if coro then s else { s with traces := setT fid (addYield t ty) s.traces }
+  else
+    let t' := if op == .retValue || op == .retConst then { t with ret := some ty } else t
+    { s with traces := eraseT fid s.traces, log := s.log ++ [(fid, t')] }
+
 /-- `CallTracer.__call__` on one event -/
 def step (cfg : Cfg) (s : State) : Ev → State
   | .other _ _ => s
@@ -86,29 +111,13 @@ def step (cfg : Cfg) (s : State) : Ev → State
     else if resumed then s                       -- _is_resumption: not a new call
     else
       -- the sampling draw happens before anything else
-      let (skip, draws) := match cfg.rate with
-        | none => (false, s.draws)
-        | some 0 => (false, s.draws)               -- `if self.sample_rate and …`: 0 is falsy
-        | some _ => (match s.draws with
-                     | [] => (false, [])
-                     | d :: ds => (d != 0, ds))
-      let s := { s with draws := draws }
-      if skip then s
-      else match cfg.resolve code with
-        | none => s
-        | some f =>
-          if (lookupT fid s.traces).isSome then s
-          else { s with traces := setT fid { func := f, args := args, ret := none, yld := none } s.traces }
+      let d := sampleDraw cfg.rate s.draws
+      if d.1 then { s with draws := d.2 } else beginTrace cfg { s with draws := d.2 } fid code args
   | .ret fid code op coro _ ty =>
     if !cfg.admits code then s
     else match lookupT fid s.traces with
       | none => s
-      | some t =>
-        if op == .yieldValue then
-          if coro then s else { s with traces := setT fid (addYield t ty) s.traces }
-        else
-          let t' := if op == .retValue || op == .retConst then { t with ret := some ty } else t
-          { s with traces := eraseT fid s.traces, log := s.log ++ [t'] }
+      | some t => endEvent s fid t op coro ty
 
 def run (cfg : Cfg) (draws : List Nat) (es : List Ev) : State :=
   es.foldl (step cfg) { traces := [], log := [], draws := draws }
